@@ -273,6 +273,17 @@ func (g *gen) stmt(e env, budget int) []zn.Stmt {
 			g.labels["each-list"] = true
 		}
 		nn := g.pick(3, "nnames")
+		// the body of a loop over a dictionary VARIABLE may remove the entry being visited or
+		// add a new one: every entry present when the loop starts is still visited exactly once
+		var pre []zn.Stmt
+		mutate := ""
+		if isDict && n >= 2 && g.pick(3, "mutating") == 0 {
+			nn = 2
+			dn := g.name("D")
+			pre = []zn.Stmt{&zn.Let{Names: []string{dn}, E: coll}}
+			coll = &zn.Var{Name: dn}
+			mutate = dn
+		}
 		fe := &zn.ForEach{E: coll}
 		var shown []zn.Expr
 		for i := 0; i < nn; i++ {
@@ -288,9 +299,18 @@ func (g *gen) stmt(e env, budget int) []zn.Stmt {
 		if nn > 0 {
 			body = append(body, &zn.ExprStmt{E: &zn.Call{Name: "显示", Args: append([]zn.Expr{&zn.Str{V: "it"}}, shown...)}})
 		}
+		if mutate != "" {
+			if g.pick(2, "mutkind") == 0 {
+				body = append(body, &zn.ExprStmt{E: &zn.MCall{Root: &zn.Var{Name: mutate}, Chain: []zn.Call{{Name: "移除", Args: []zn.Expr{&zn.Var{Name: fe.Names[0]}}}}}})
+				g.labels["each-dict-removing-visited-entry"] = true
+			} else {
+				body = append(body, &zn.ExprStmt{E: &zn.MCall{Root: &zn.Var{Name: mutate}, Chain: []zn.Call{{Name: "写入", Args: []zn.Expr{&zn.Str{V: "新"}, numE(1)}}}}})
+				g.labels["each-dict-adding-entry"] = true
+			}
+		}
 		fe.Body = append(body, g.block(inner, budget-1)...)
 		g.labels[fmt.Sprintf("each-%d-names", nn)] = true
-		return []zn.Stmt{fe}
+		return append(pre, fe)
 	case "break":
 		if e.loopDepth >= 1 && e.depth >= 2 {
 			g.transferInLoopDeep = true
